@@ -88,7 +88,7 @@ PROPERTIES = {
         assumptions=['tokio::time::sleep(d) arms a timer of duration d (millisecond granularity)'],
     ),
     'C20': dict(
-        units=['auth', 'kani_poll'],
+        units=['auth', 'kani_poll', 'enum_glue'],
         canaries=['auth', 'poll'],
         counterexample=cex.cex_c20,
         scope='the wrapped service is invoked (exactly once, with the unchanged request) iff the authorizer accepted; a refused request gets exactly the '
@@ -128,7 +128,7 @@ PROPERTIES = {
         assumptions=['Instant + Duration does not overflow; fewer than 2^64 consecutive failures'],
     ),
     'C03': dict(
-        units=['active_peers', 'crypto', 'wire'],
+        units=['active_peers', 'crypto', 'wire', 'enum_glue'],
         canaries=['dialing', 'streams'],
         extra=[validate.history_c03],
         scope='glue only: (a) the pinning verifier accepts a server certificate only if its public key is the expected identity AND the base verifier accepts it, '
